@@ -302,12 +302,27 @@ func checkC12Select(c *core.Ctx, ak accessKinds) {
 		return
 	}
 	c.Analysed("ocifilter.Select")
-	// Select must delegate to AccessChecker with a policy literal.
+	// Select must delegate to AccessChecker with a policy function: a literal
+	// capturing `allow`, or a bound method of a value converted from `allow`.
 	var pol *ssa.Function
+	isAllow := func(v ssa.Value) bool { return false }
 	for _, ci := range facts.CallsIn(sel) {
 		if hasSuffix(facts.CalleeName(ci.Common()), "ocifilter.AccessChecker") && len(ci.Common().Args) == 2 {
 			if mc, ok := facts.Resolve(ci.Common().Args[1]).(*ssa.MakeClosure); ok {
-				pol = mc.Fn.(*ssa.Function)
+				fn := mc.Fn.(*ssa.Function)
+				if fn.Synthetic == "" {
+					pol = fn
+					isAllow = func(v ssa.Value) bool {
+						idx, root, isP := rootParam(v)
+						return isP && root == sel && idx == 1
+					}
+				} else if m := resolveThunk(mc); m != nil && m != fn && len(mc.Bindings) == 1 {
+					// bound method: the receiver is (a conversion of) Select's allow parameter
+					if idx, root, isP := rootParam(mc.Bindings[0]); isP && root == sel && idx == 1 {
+						pol = m
+						isAllow = func(v ssa.Value) bool { return argIsParam(v, m, 0) }
+					}
+				}
 			}
 			if !argIsParam(ci.Common().Args[0], sel, 0) {
 				c.Fail("C12.R5", "Select/backend", ci.Pos(), "Select does not wrap its own registry argument")
@@ -315,7 +330,21 @@ func checkC12Select(c *core.Ctx, ak accessKinds) {
 		}
 	}
 	if pol == nil {
-		c.Fail("C12.R5", "Select/policy", sel.Pos(), "Select does not pass a policy function literal to AccessChecker")
+		c.Fail("C12.R5", "Select/policy", sel.Pos(), "Select does not pass a policy function (a literal or a bound method over `allow`) to AccessChecker")
+		return
+	}
+	c.Analysed(facts.FuncName(pol))
+	// parameter roles in the policy: the repository name (string) and the access kind
+	nameIdx, accIdx := -1, -1
+	for i, p := range pol.Params {
+		if types.Identical(p.Type(), ak.T) {
+			accIdx = i
+		} else if p.Type().String() == "string" && nameIdx < 0 {
+			nameIdx = i
+		}
+	}
+	if nameIdx < 0 || accIdx < 0 {
+		c.Fail("C12.R5", "Select/policy", pol.Pos(), "the policy function does not take (name string, access AccessKind)")
 		return
 	}
 	errGlobal := func(v ssa.Value) string {
@@ -341,8 +370,8 @@ func checkC12Select(c *core.Ctx, ak accessKinds) {
 		star := false
 		for _, cd := range conds {
 			if call, ok := cd.V.(*ssa.Call); ok {
-				// allow(repoName): dynamic call on Select's param 1 with the policy's param 0
-				if idx, root, isP := rootParam(call.Call.Value); isP && root == sel && idx == 1 && len(call.Call.Args) == 1 && argIsParam(call.Call.Args[0], pol, 0) {
+				// allow(repoName): dynamic call on the allow function with the policy's name parameter
+				if isAllow(call.Call.Value) && len(call.Call.Args) == 1 && argIsParam(call.Call.Args[0], pol, nameIdx) {
 					if cd.Pos {
 						allowTrue = true
 					} else {
@@ -352,7 +381,7 @@ func checkC12Select(c *core.Ctx, ak accessKinds) {
 				continue
 			}
 			if x, op, y, ok := facts.Cmp(cd); ok {
-				if argIsParam(x, pol, 1) {
+				if argIsParam(x, pol, accIdx) {
 					if k, isC := facts.ConstInt(y); isC {
 						if op == token.EQL {
 							accessIs[k] = true
@@ -361,7 +390,7 @@ func checkC12Select(c *core.Ctx, ak accessKinds) {
 						}
 					}
 				}
-				if argIsParam(x, pol, 0) {
+				if argIsParam(x, pol, nameIdx) {
 					if s, isS := facts.ConstString(y); isS && s == "*" && op == token.EQL {
 						star = true
 					}
